@@ -58,20 +58,25 @@ VARIABLES
   minSeen,    \* smallest value ever returned by the target
   lastRec,    \* incumbent value recorded at the last history record (-1: none)
   nrec,       \* number of history records written
+  recVals,    \* incumbent values recorded in the iteration history so far
   finished, msg,
   np,         \* consecutive loop iterations without evaluation/poll/termination
   nfinalDone,
   resVal,     \* value reported in the result (-1 before)
   evald       \* a target call happened in the current loop iteration
 
-vars == <<phase, fc, ncalls, nlog, noisy, budgetEff, nfinalEff, k, ks, iter,
-          sc, ss, spree, doSearch, doPoll, pcount, premain, pgood, pbest,
-          inc, minSeen, lastRec, nrec, finished, msg, np, nfinalDone, resVal,
-          evald>>
+\* variable groups (to keep the UNCHANGED clauses readable)
+vCount == <<fc, ncalls, nlog, minSeen, evald>>     \* changed by every target call
+vMode  == <<noisy, budgetEff, nfinalEff>>
+vMesh  == <<k, ks>>
+vCtr   == <<iter, sc, ss, spree>>
+vFlag  == <<doSearch, doPoll>>
+vPoll  == <<pcount, premain, pgood, pbest>>
+vHist  == <<lastRec, nrec, recVals>>
+vTerm  == <<finished, msg, np>>
+vFinal == <<nfinalDone, resVal>>
 
-ctl == <<phase, fc, nlog, noisy, budgetEff, nfinalEff, k, ks, iter, sc, ss,
-         spree, doSearch, doPoll, pcount, premain, pgood, finished, msg, np,
-         nfinalDone>>
+vars == <<phase, vCount, vMode, vMesh, vCtr, vFlag, vPoll, inc, vHist, vTerm, vFinal>>
 
 -----------------------------------------------------------------------------
 Init ==
@@ -83,7 +88,7 @@ Init ==
   /\ iter = 0 /\ sc = NTry /\ ss = 0 /\ spree = 0
   /\ doSearch = FALSE /\ doPoll = FALSE
   /\ pcount = 0 /\ premain = 0 /\ pgood = FALSE /\ pbest = 0
-  /\ inc = 0 /\ minSeen = NVals /\ lastRec = -1 /\ nrec = 0
+  /\ inc = 0 /\ minSeen = NVals /\ lastRec = -1 /\ nrec = 0 /\ recVals = {}
   /\ finished = FALSE /\ msg = "" /\ np = 0 /\ nfinalDone = 0 /\ resVal = -1
   /\ evald = FALSE
 
@@ -101,11 +106,10 @@ TargetFault ==
   /\ phase \in {"start", "noisetest", "initdesign", "searcheval", "polleval", "finalsample"}
   /\ (phase = "finalsample" => nfinalDone < nfinalEff)
   /\ (phase = "polleval" => PollMayEvaluate(fc, budgetEff, pcount, D, premain))
+  /\ (phase = "initdesign" => (pcount = 1 /\ premain > 0))
   /\ phase' = "failed"
   /\ ncalls' = ncalls + 1
-  /\ UNCHANGED <<fc, nlog, noisy, budgetEff, nfinalEff, k, ks, iter, sc, ss,
-                 spree, doSearch, doPoll, pcount, premain, pgood, pbest, inc,
-                 minSeen, lastRec, nrec, finished, msg, np, nfinalDone, resVal, evald>>
+  /\ UNCHANGED <<fc, nlog, minSeen, evald, vMode, vMesh, vCtr, vFlag, vPoll, inc, vHist, vTerm, vFinal>>
 
 (* ---- _init_mesh_ (l.917-1038) ----------------------------------------- *)
 EvalX0 ==
@@ -114,9 +118,7 @@ EvalX0 ==
        /\ Called(v, TRUE)
        /\ inc' = v
   /\ phase' = IF noisy THEN "initdesign" ELSE "noisetest"
-  /\ UNCHANGED <<noisy, budgetEff, nfinalEff, k, ks, iter, sc, ss, spree,
-                 doSearch, doPoll, pcount, premain, pgood, pbest, lastRec,
-                 nrec, finished, msg, np, nfinalDone, resVal>>
+  /\ UNCHANGED <<vMode, vMesh, vCtr, vFlag, vPoll, vHist, vTerm, vFinal>>
 
 \* second evaluation at x0, not recorded; differs => stochastic (l.931-939)
 NoiseTest ==
@@ -126,9 +128,7 @@ NoiseTest ==
        /\ noisy' = (AutoDetect /\ v # inc)
        /\ (~AutoDetect => v = inc)
   /\ phase' = "initdesign"
-  /\ UNCHANGED <<budgetEff, nfinalEff, k, ks, iter, sc, ss, spree, doSearch,
-                 doPoll, pcount, premain, pgood, pbest, inc, lastRec, nrec,
-                 finished, msg, np, nfinalDone, resVal>>
+  /\ UNCHANGED <<budgetEff, nfinalEff, vMesh, vCtr, vFlag, vPoll, inc, vHist, vTerm, vFinal>>
 
 \* initial design: each surviving Sobol point is evaluated (l.974-1022);
 \* modelled one evaluation at a time, premain = points still to evaluate
@@ -138,9 +138,7 @@ InitDesignBegin ==
        /\ fc + n <= Budget       \* precondition of the budget clause of C03
        /\ premain' = n
   /\ pcount' = 1                 \* marks "design drawn"
-  /\ UNCHANGED <<phase, fc, ncalls, nlog, noisy, budgetEff, nfinalEff, k, ks,
-                 iter, sc, ss, spree, doSearch, doPoll, pgood, pbest, inc,
-                 minSeen, lastRec, nrec, finished, msg, np, nfinalDone, resVal, evald>>
+  /\ UNCHANGED <<phase, vCount, vMode, vMesh, vCtr, vFlag, pgood, pbest, inc, vHist, vTerm, vFinal>>
 
 InitDesignEval ==
   /\ phase = "initdesign" /\ pcount = 1 /\ premain > 0
@@ -148,9 +146,7 @@ InitDesignEval ==
        /\ Called(v, TRUE)
        /\ inc' = Min2(inc, v)    \* incumbent := argmin over the design (l.1015)
   /\ premain' = premain - 1
-  /\ UNCHANGED <<phase, noisy, budgetEff, nfinalEff, k, ks, iter, sc, ss,
-                 spree, doSearch, doPoll, pcount, pgood, pbest, lastRec, nrec,
-                 finished, msg, np, nfinalDone, resVal>>
+  /\ UNCHANGED <<phase, vMode, vMesh, vCtr, vFlag, pcount, pgood, pbest, vHist, vTerm, vFinal>>
 
 \* _init_optimization_: reserve the final samples (l.1071-1080), train GP
 InitDone ==
@@ -160,9 +156,7 @@ InitDone ==
         /\ nfinalEff' = r.nfinalEff
   /\ pcount' = 0
   /\ phase' = "loopbegin"
-  /\ UNCHANGED <<fc, ncalls, nlog, noisy, k, ks, iter, sc, ss, spree,
-                 doSearch, doPoll, premain, pgood, pbest, inc, minSeen,
-                 lastRec, nrec, finished, msg, np, nfinalDone, resVal, evald>>
+  /\ UNCHANGED <<vCount, noisy, vMesh, vCtr, vFlag, premain, pgood, pbest, inc, vHist, vTerm, vFinal>>
 
 (* ---- top of the while loop (l.1183-1233) ------------------------------ *)
 LoopBegin ==
@@ -171,9 +165,7 @@ LoopBegin ==
   /\ doSearch' = DoSearch(sc, NTry, nlog, D)
   /\ phase' = IF DoSearch(sc, NTry, nlog, D) THEN "search" ELSE "decide"
   /\ evald' = FALSE
-  /\ UNCHANGED <<fc, ncalls, nlog, noisy, budgetEff, nfinalEff, k, iter, sc,
-                 ss, spree, doPoll, pcount, premain, pgood, pbest, inc,
-                 minSeen, lastRec, nrec, finished, msg, np, nfinalDone, resVal>>
+  /\ UNCHANGED <<fc, ncalls, nlog, minSeen, vMode, k, vCtr, doPoll, vPoll, inc, vHist, vTerm, vFinal>>
 
 (* ---- _search_step_ (l.1526-1819) -------------------------------------- *)
 \* search_count advances on every attempt, even with an empty set (l.1584)
@@ -181,19 +173,13 @@ SearchEmpty ==
   /\ phase = "search"
   /\ sc' = sc + 1
   /\ phase' = "decide"
-  /\ UNCHANGED <<fc, ncalls, nlog, noisy, budgetEff, nfinalEff, k, ks, iter,
-                 ss, spree, doSearch, doPoll, pcount, premain, pgood, pbest,
-                 inc, minSeen, lastRec, nrec, finished, msg, np, nfinalDone,
-                 resVal, evald>>
+  /\ UNCHANGED <<vCount, vMode, vMesh, iter, ss, spree, vFlag, vPoll, inc, vHist, vTerm, vFinal>>
 
 SearchCandidate ==
   /\ phase = "search"
   /\ sc' = sc + 1
   /\ phase' = "searcheval"
-  /\ UNCHANGED <<fc, ncalls, nlog, noisy, budgetEff, nfinalEff, k, ks, iter,
-                 ss, spree, doSearch, doPoll, pcount, premain, pgood, pbest,
-                 inc, minSeen, lastRec, nrec, finished, msg, np, nfinalDone,
-                 resVal, evald>>
+  /\ UNCHANGED <<vCount, vMode, vMesh, iter, ss, spree, vFlag, vPoll, inc, vHist, vTerm, vFinal>>
 
 \* exactly one evaluation; outcome failure / incremental / success.
 \* deterministic default policy: move iff the value is strictly lower.
@@ -208,9 +194,7 @@ SearchEval ==
        /\ inc' = IF outcome = "failure" THEN inc ELSE v
        /\ ss' = IF outcome = "success" THEN ss + 1 ELSE ss
   /\ phase' = "decide"
-  /\ UNCHANGED <<noisy, budgetEff, nfinalEff, k, ks, iter, sc, spree,
-                 doSearch, doPoll, pcount, premain, pgood, pbest, lastRec,
-                 nrec, finished, msg, np, nfinalDone, resVal>>
+  /\ UNCHANGED <<vMode, vMesh, iter, sc, spree, vFlag, vPoll, vHist, vTerm, vFinal>>
 
 (* ---- search / poll alternation (l.1247-1284) -------------------------- *)
 DecideStep ==
@@ -222,9 +206,7 @@ DecideStep ==
         /\ doPoll' = d.doPoll
         /\ k' = d.k
         /\ phase' = IF d.doPoll THEN "pollbegin" ELSE "loopend"
-  /\ UNCHANGED <<fc, ncalls, nlog, noisy, budgetEff, nfinalEff, ks, iter,
-                 doSearch, pcount, premain, pgood, pbest, inc, minSeen,
-                 lastRec, nrec, finished, msg, np, nfinalDone, resVal, evald>>
+  /\ UNCHANGED <<vCount, vMode, ks, iter, doSearch, vPoll, inc, vHist, vTerm, vFinal>>
 
 (* ---- _poll_step_ (l.1887-2265) ---------------------------------------- *)
 \* directions generated and filtered: 0..2D candidates remain.  The set is
@@ -235,9 +217,7 @@ PollBegin ==
   /\ \E n \in 0 .. 2 * D :
        premain' = IF fc < budgetEff THEN n ELSE 0
   /\ phase' = "polleval"
-  /\ UNCHANGED <<fc, ncalls, nlog, noisy, budgetEff, nfinalEff, k, ks, iter,
-                 sc, ss, spree, doSearch, doPoll, inc, minSeen, lastRec, nrec,
-                 finished, msg, np, nfinalDone, resVal, evald>>
+  /\ UNCHANGED <<vCount, vMode, vMesh, vCtr, vFlag, inc, vHist, vTerm, vFinal>>
 
 PollEval ==
   /\ phase = "polleval"
@@ -254,9 +234,7 @@ PollEval ==
        /\ pgood' = (pgood \/ suff)
   /\ pcount' = pcount + 1
   /\ premain' = premain - 1
-  /\ UNCHANGED <<phase, noisy, budgetEff, nfinalEff, k, ks, iter, sc, ss,
-                 spree, doSearch, doPoll, inc, lastRec, nrec, finished, msg,
-                 np, nfinalDone, resVal>>
+  /\ UNCHANGED <<phase, vMode, vMesh, vCtr, vFlag, inc, vHist, vTerm, vFinal>>
 
 \* polling stops: guard false, or (not complete_poll) early stop (l.2055-2076)
 PollEnd ==
@@ -270,9 +248,7 @@ PollEnd ==
           /\ ks' = SearchSizeAfterPoll(ks, kNew, pgood, GridMult, GridNum)
   /\ inc' = pbest               \* sloppy improvement: move iff improved
   /\ phase' = "loopend"
-  /\ UNCHANGED <<fc, ncalls, nlog, noisy, budgetEff, nfinalEff, iter, sc, ss,
-                 spree, doSearch, doPoll, pcount, premain, pgood, pbest,
-                 minSeen, lastRec, nrec, finished, msg, np, nfinalDone, resVal, evald>>
+  /\ UNCHANGED <<vCount, vMode, vCtr, vFlag, vPoll, vHist, vTerm, vFinal>>
 
 (* ---- end of the loop body (l.1299-1424) ------------------------------- *)
 LoopEnd ==
@@ -284,54 +260,47 @@ LoopEnd ==
           IN /\ finished' = fin
              /\ msg' = TermMsg(c)
              /\ IF RecordsHistory(doPoll, fin)
-                THEN lastRec' = inc /\ nrec' = nrec + 1
-                ELSE UNCHANGED <<lastRec, nrec>>
+                THEN lastRec' = inc /\ nrec' = nrec + 1 /\ recVals' = recVals \cup {inc}
+                ELSE UNCHANGED vHist
              /\ iter' = NextIter(iter, doPoll, fin)
              /\ phase' = IF fin THEN "final" ELSE "loopbegin"
              /\ np' = IF fin \/ doPoll \/ evald THEN 0
                       ELSE Min2(np + 1, NonProgressBound(NTry) + 1)
-  /\ UNCHANGED <<fc, ncalls, nlog, noisy, budgetEff, nfinalEff, k, ks, sc, ss,
-                 spree, doSearch, doPoll, pcount, premain, pgood, pbest, inc,
-                 minSeen, resVal, nfinalDone, evald>>
+  \* noisy: after re-evaluating the history the incumbent may be swapped for a
+  \* recorded iterate (l.1372-1411); deterministic: unchanged
+  /\ IF noisy /\ doPoll /\ iter > 0
+     THEN inc' \in (recVals \cup {inc})
+     ELSE inc' = inc
+  /\ UNCHANGED <<vCount, vMode, vMesh, sc, ss, spree, vFlag, vPoll, vFinal>>
 
 (* ---- after the loop (l.1428-1524) ------------------------------------- *)
-\* noisy and at least one completed poll iteration: pick the final iterate,
-\* then take nfinalEff fresh samples there
+\* noisy and at least one completed poll iteration: the returned point is
+\* chosen among the recorded iterates (lowest upper quantile, l.1436-1454);
+\* the final samples are taken in every noisy run
 FinalBegin ==
   /\ phase = "final"
-  \* the final samples are taken in every noisy run (also when no poll iteration
-  \* completed: only the choice among history iterates needs iter > 0)
   /\ phase' = IF noisy /\ nfinalEff > 0 THEN "finalsample" ELSE "result"
-  /\ UNCHANGED <<fc, ncalls, nlog, noisy, budgetEff, nfinalEff, k, ks, iter,
-                 sc, ss, spree, doSearch, doPoll, pcount, premain, pgood, pbest,
-                 inc, minSeen, lastRec, nrec, finished, msg, np, nfinalDone,
-                 resVal, evald>>
+  /\ IF noisy /\ iter > 0 THEN inc' \in recVals ELSE inc' = inc
+  /\ UNCHANGED <<vCount, vMode, vMesh, vCtr, vFlag, vPoll, vHist, vTerm, vFinal>>
 
 FinalSample ==
   /\ phase = "finalsample"
   /\ nfinalDone < nfinalEff
   /\ \E v \in Vals : Called(v, FALSE)
   /\ nfinalDone' = nfinalDone + 1
-  /\ UNCHANGED <<phase, noisy, budgetEff, nfinalEff, k, ks, iter, sc, ss,
-                 spree, doSearch, doPoll, pcount, premain, pgood, pbest, inc,
-                 lastRec, nrec, finished, msg, np, resVal>>
+  /\ UNCHANGED <<phase, vMode, vMesh, vCtr, vFlag, vPoll, inc, vHist, vTerm, resVal>>
 
 FinalDone ==
   /\ phase = "finalsample"
   /\ nfinalDone = nfinalEff
   /\ phase' = "result"
-  /\ UNCHANGED <<fc, ncalls, nlog, noisy, budgetEff, nfinalEff, k, ks, iter,
-                 sc, ss, spree, doSearch, doPoll, pcount, premain, pgood, pbest,
-                 inc, minSeen, lastRec, nrec, finished, msg, np, nfinalDone,
-                 resVal, evald>>
+  /\ UNCHANGED <<vCount, vMode, vMesh, vCtr, vFlag, vPoll, inc, vHist, vTerm, vFinal>>
 
 MakeResult ==
   /\ phase = "result"
   /\ resVal' = inc
   /\ phase' = "done"
-  /\ UNCHANGED <<fc, ncalls, nlog, noisy, budgetEff, nfinalEff, k, ks, iter,
-                 sc, ss, spree, doSearch, doPoll, pcount, premain, pgood, pbest,
-                 inc, minSeen, lastRec, nrec, finished, msg, np, nfinalDone, evald>>
+  /\ UNCHANGED <<vCount, vMode, vMesh, vCtr, vFlag, vPoll, inc, vHist, vTerm, nfinalDone>>
 
 Done ==
   /\ phase \in {"done", "failed"}
@@ -384,6 +353,9 @@ FinalSamplesTaken ==
   (phase = "done" /\ noisy) => nfinalDone = nfinalEff
 FinalSamplesLast ==
   [][(nfinalDone' # nfinalDone) => phase = "finalsample"]_vars
+
+\* C19 / C05 -- the value returned is that of a recorded iterate
+ResultInHistory == phase = "done" => resVal \in recVals
 
 \* C10 -- a failing target call ends the run; only valid calls are counted
 NoCallAfterFault == [][phase = "failed" => UNCHANGED vars]_vars
